@@ -35,11 +35,21 @@
 (*     TRUE  the value it wrote (the design that satisfies T)              *)
 (*     FALSE the target (transcription of updater.go MergeFuncUpdateCgroup *)
 (*           as found: `return resource, cgroupFileWrite(.., mergedValue)`)*)
+(*                                                                         *)
+(* PART 2b (design level - cpusuppress.applyCPUSetWithNonePolicy): ONE new *)
+(* cpuset for every BE cgroup; phase 1 widens top-down (directory walk     *)
+(* order), phase 2 writes the new cpuset in the reverse order; every write *)
+(* goes through the cacheable UpdateBatch (skip if the cache holds the     *)
+(* value, else write-if-different).  OwnUnion selects what phase 1 writes: *)
+(*     TRUE  each cgroup's OWN current cpuset \cup new (satisfies N)        *)
+(*     FALSE the BE root's old cpuset \cup new, the same for every cgroup   *)
+(*           (transcription of cpu_suppress.go as found)                   *)
 (***************************************************************************)
 EXTENDS Integers, Sequences, FiniteSets, SequencesExt
 
 CONSTANTS
-  CacheMerged,    \* BOOLEAN, see above
+  CacheMerged,    \* BOOLEAN, see above (PART 2)
+  OwnUnion,       \* BOOLEAN, see above (PART 2b)
   MaxRewrites     \* how many consecutive rewrites one behaviour performs (cache carried over)
 
 Unl == 99                          \* "unlimited" (-1 / max / MaxInt64): top of the limit order
@@ -107,9 +117,10 @@ PropStep ==
 VARIABLES
   cache,    \* node -> [has, v] : has = FALSE: nothing remembered (never written, or expired); else v = the value the
             \*         executor believes the file holds (ResourceCache, keyed by file path)
-  pc,       \* <<"idle">> | <<"merge", i>> | <<"exact", i>> | <<"end">>
-  rewrites  \* number of rewrites begun so far
-ivars == <<cache, pc, rewrites>>
+  pc,       \* <<"idle">> | <<"merge", i>> | <<"exact", i>> | <<"widen", i>> | <<"narrow", i>> | <<"end">>
+  rewrites, \* number of rewrites begun so far
+  algo      \* "leveled" (PART 2) | "suppress" (PART 2b)
+ivars == <<cache, pc, rewrites, algo>>
 vars  == <<pvars, ivars>>
 
 NoEnt(k) == [has |-> FALSE, v |-> IF k = "cpuset" THEN {} ELSE 0]
@@ -148,28 +159,60 @@ ExactStep(n) ==
 IBegin(t, expired) ==
   /\ pc = <<"idle">>
   /\ rewrites < MaxRewrites
+  /\ algo = "suppress" => kind = "cpuset" /\ t[1] # {} /\ \A n \in Nodes : t[n] = t[1]     \* one non-empty cpuset for all
   /\ Begin(t)
   /\ cache' = [n \in Nodes |-> IF n \in expired THEN NoEnt(kind) ELSE cache[n]]
-  /\ pc' = <<"merge", 1>>
+  /\ pc' = IF algo = "leveled" THEN <<"merge", 1>> ELSE <<"widen", 1>>
   /\ rewrites' = rewrites + 1
+  /\ UNCHANGED algo
 
 IMerge ==
   /\ pc[1] = "merge"
   /\ MergeStep(MergeOrder(par)[pc[2]])
   /\ pc' = IF pc[2] < Len(par) THEN <<"merge", pc[2] + 1>> ELSE <<"exact", 1>>
-  /\ UNCHANGED <<par, kind, old, target, phase, rewrites>>
+  /\ UNCHANGED <<par, kind, old, target, phase, rewrites, algo>>
 
 IExact ==
   /\ pc[1] = "exact"
   /\ ExactStep(ExactOrder(par)[pc[2]])
   /\ pc' = IF pc[2] < Len(par) THEN <<"exact", pc[2] + 1>> ELSE <<"end">>
-  /\ UNCHANGED <<par, kind, old, target, phase, rewrites>>
+  /\ UNCHANGED <<par, kind, old, target, phase, rewrites, algo>>
 
 IDone ==
   /\ pc = <<"end">>
   /\ phase' = "idle"
   /\ pc' = <<"idle">>
-  /\ UNCHANGED <<par, kind, val, old, target, written, cache, rewrites>>
+  /\ UNCHANGED <<par, kind, val, old, target, written, cache, rewrites, algo>>
+
+(* PART 2b : applyCPUSetWithNonePolicy *)
+
+\* GetBECPUSetPathsByMaxDepth: filepath.Walk = depth-first, a directory before its entries, entries in name (= node) order
+RECURSIVE PreOrder(_, _)
+PreOrder(p, n) ==
+  LET kids == SetToSortSeq({c \in 1..Len(p) : p[c] = n}, <)
+      F[i \in 0..Len(kids)] == IF i = 0 THEN <<n>> ELSE F[i - 1] \o PreOrder(p, kids[i])
+  IN F[Len(kids)]
+
+\* executor.UpdateBatch(cacheable = true, u): updateByCache
+ByCache(n, u) ==
+  IF cache[n].has /\ cache[n].v = u THEN UNCHANGED <<val, written, cache>>
+  ELSE /\ cache' = [cache EXCEPT ![n] = Ent(u)]
+       /\ IF val[n] # u                                      \* cgroupFileWriteIfDifferent
+          THEN val' = [val EXCEPT ![n] = u] /\ written' = written \cup {n}
+          ELSE UNCHANGED <<val, written>>
+
+\* old[1] stands for adjustByCPUSet's oldCPUSet = the BE qos cgroup's cpuset when the rewrite began
+SWiden ==
+  /\ pc[1] = "widen"
+  /\ LET n == PreOrder(par, 1)[pc[2]] IN ByCache(n, (IF OwnUnion THEN val[n] ELSE old[1]) \cup target[n])
+  /\ pc' = IF pc[2] < Len(par) THEN <<"widen", pc[2] + 1>> ELSE <<"narrow", 1>>
+  /\ UNCHANGED <<par, kind, old, target, phase, rewrites, algo>>
+
+SNarrow ==
+  /\ pc[1] = "narrow"
+  /\ LET n == Reverse(PreOrder(par, 1))[pc[2]] IN ByCache(n, target[n])
+  /\ pc' = IF pc[2] < Len(par) THEN <<"narrow", pc[2] + 1>> ELSE <<"end">>
+  /\ UNCHANGED <<par, kind, old, target, phase, rewrites, algo>>
 
 \* what MC establishes about the design
 TNAtEnd        == pc = <<"end">> => T /\ N
